@@ -25,6 +25,7 @@ import LdkModel.Proofs.Punish
 import LdkModel.Proofs.Package
 import LdkModel.Proofs.JusticeChain
 import LdkModel.Proofs.Packages
+import LdkModel.Proofs.ScopeData
 namespace Ldk.C06
 open Ldk Ldk.Secrets Ldk.Punish Ldk.Pkg
 
@@ -738,5 +739,68 @@ example : (connectBlock 101 (fun _ => true) exHandler [⟨13, [2, 0, 1]⟩]).map
       some ([(7, [0, 1, 2])], 0, [.claim 7 13 101]) := by decide
 
 end Packages
+
+/-! ### the per-FundingScope commitment data while splices / RBF candidates are pending (Model/ScopeData.lean; which element of
+    `commitment_txs` feeds which scope is TRANSLATED on every run into Generated/ScopeData.lean by gen_scopedata.py) -/
+section Scopes
+open Ldk.ScopeData
+
+/-- **scope_data_is_own_commitment** — over ALL histories of monitor updates that touch the per-commitment data (counterparty
+    commitments with one transaction per funding scope, funding renegotiations — splices and RBF candidates —, promotions of a pending
+    funding), starting from a fresh channel: every HTLC list stored in ANY funding scope (the locked one or a pending one), under
+    whatever txid, is the non-dust HTLC list — WITH ITS `transaction_output_index`es — of a commitment transaction of the history
+    that has this txid and spends THAT scope's funding output (never the list of the same commitment's version for another
+    funding).  The proof needs `Gen.pendingSrc k = Gen.pendingKey k` and `Gen.lockedSrc = Gen.lockedKey` of the TRANSLATED
+    definitions: a list built from another scope's transaction (seeded C06-r5) refutes it. -/
+theorem scope_data_is_own_commitment (f0 : Nat) (ops : List ScopeData.Op) (m : ScopeData.Mon)
+    (hrun : ScopeData.run (ScopeData.Mon.init f0) ops = some m) :
+    ∀ s ∈ m.scopes, ∀ e ∈ s.claimable,
+      ∃ t ∈ seenTxs ops, t.funding = s.funding ∧ t.txid = e.1 ∧ t.htlcs = e.2 := by
+  have hinit : Inv [] (ScopeData.Mon.init f0) := by
+    intro s hs e he
+    simp only [ScopeData.Mon.init, Mon.scopes, List.mem_cons, List.not_mem_nil, or_false] at hs
+    subst hs
+    simp at he
+  have h := run_inv ops [] _ m hinit hrun
+  rw [List.nil_append] at h
+  exact h
+
+example : (ScopeData.run (ScopeData.Mon.init 1)
+      [.commit [⟨1, 10, []⟩], .reneg ⟨2, 20, []⟩,
+       .commit [⟨1, 11, [⟨20000000, true, 100, some 3⟩]⟩, ⟨2, 21, [⟨20000000, true, 100, some 2⟩]⟩], .promote 2]).map
+      (fun m => (m.locked.funding, m.locked.claimable, m.pending.length)) =
+    some (2, [(21, [⟨20000000, true, 100, some 2⟩]), (20, [])], 0) := by decide
+
+/-- **revoked_commitment_htlcs_claimed_in_every_scope** — for every such history, every funding scope `s` of the monitor and every
+    counterparty commitment txid it has data for: that data belongs to a commitment transaction `t` of the history spending `s`'s
+    funding, and when `t` confirms — with ANY output order, as long as `t`'s own indices point at outputs of the HTLCs' values,
+    which is what a transaction builder assigning the indices guarantees (`Body.WF`, re-checked on every real commitment) —
+    `check_spend_counterparty_transaction`'s loop does not hit its "per_commitment_data is corrupt" early return and produces one
+    claim per non-dust HTLC of `t`: no HTLC output of a revoked commitment signed while a splice was pending goes unpunished,
+    whichever funding it spends. -/
+theorem revoked_commitment_htlcs_claimed_in_every_scope {S : Type} (f0 : Nat) (ops : List ScopeData.Op) (m : ScopeData.Mon)
+    (hrun : ScopeData.run (ScopeData.Mon.init f0) ops = some m) (funding txid : Nat) (s : Scope) (l : List Htlc)
+    (hs : m.scopes.find? (fun s => s.funding == funding) = some s) (hl : s.claimable.lookup txid = some l) :
+    ∃ t ∈ seenTxs ops, t.funding = funding ∧ t.txid = txid ∧
+      ∀ tx : List (TxOut S), (∀ h ∈ t.htlcs, ∀ i, h.outIdx = some i → ∃ o, tx[i]? = some o ∧ o.sat = h.sat) →
+        htlcClaimsOn m funding txid tx = t.htlcs.filterMap (fun h => h.outIdx.map Outpoint.commit) := by
+  have hmem := List.mem_of_find?_eq_some hs
+  have hf : s.funding = funding := by simpa using List.find?_some hs
+  obtain ⟨t, ht, h1, h2, h3⟩ := scope_data_is_own_commitment f0 ops m hrun s hmem (txid, l) (mem_of_lookup txid _ l hl)
+  refine ⟨t, ht, h1.trans hf, h2, ?_⟩
+  intro tx hwf
+  simp only [htlcClaimsOn, hs, hl]
+  simp only at h3
+  rw [← h3]
+  exact htlcClaims_eq tx t.htlcs hwf
+
+-- the splice version of a commitment has the HTLC at output 2, the pre-splice version at output 3: with each scope's OWN list both
+-- are punished; with the other scope's list the value check fails at the stored index and NOTHING is claimed
+example : htlcClaims ([⟨330, .anchor⟩, ⟨330, .anchor⟩, ⟨20000, .htlc⟩, ⟨108000, .toRemote⟩, ⟨70000, .revokeable ()⟩] : List (TxOut Unit))
+      [⟨20000000, true, 100, some 2⟩] = [.commit 2] ∧
+    htlcClaims ([⟨330, .anchor⟩, ⟨330, .anchor⟩, ⟨20000, .htlc⟩, ⟨108000, .toRemote⟩, ⟨70000, .revokeable ()⟩] : List (TxOut Unit))
+      [⟨20000000, true, 100, some 3⟩] = [] := by decide
+
+end Scopes
 
 end Ldk.C06
